@@ -240,6 +240,7 @@ class Engine(object):
         self.native_models = None
         from . import models
         self.models = models.Models(self)
+        sym.NONNEG_HOOK[0] = self._entails_nonneg
         self.explore_budget_s = 300    # wall clock per contract: beyond it the function counts as outside the supported subset (undecided)
         self.axioms = []           # global axioms (about uninterpreted functions) added to every query
 
@@ -307,6 +308,18 @@ class Engine(object):
         if r == z3.unsat:
             return False
         return None
+
+    def _entails_nonneg(self, t):
+        p = self.path
+        if p is None:
+            return False
+        key = ("nonneg", t.get_id(), len(p.pc))
+        hit = p.refs.get(key)
+        if hit is not None and hit[0].eq(t):
+            return hit[1]
+        r = self.feasible(p.pc, slice_for=t < 0) is False
+        p.refs[key] = (t, r)
+        return r
 
     _re_cache = {}
 
